@@ -409,6 +409,18 @@ def mk_op(letter, rng, nt, bo, tail):
     if letter == 'aod':
         lay = rng.choice(['C', 'F', 'strided', 'neg', 'T'])
         return dict(op='append', items=[nd_spec(small_values(rng, (3,) + t, OTHER_DT[nt]), lay)])
+    if letter == 'asw':      # the array's own numeric type in the OTHER byte order
+        other = 'big' if bo == 'little' else 'little'
+        return dict(op='append', items=[nd_spec(rand_array(rng, nt, other, (2,) + t))])
+    if letter == 'a0d':      # a 0-d ndarray: np.concatenate refuses it (rank)
+        return dict(op='append', items=[nd_spec(small_values(rng, (), own))])
+    if letter == 'itbad':    # one good chunk, then one of the wrong shape: the first is kept
+        bad = (2,) + t + (2,) if t else (2, 2)
+        return dict(op='iterappend', items=[nd_spec(rand_array(rng, nt, bo, (1,) + t)),
+                                            nd_spec(small_values(rng, bad, own))])
+    if letter == 'it0d':     # the failing chunk is the first one and is a 0-d array
+        return dict(op='iterappend', items=[nd_spec(small_values(rng, (), own)),
+                                            nd_spec(rand_array(rng, nt, bo, (1,) + t))])
     if letter == 'abad':
         bad = (2,) + t + (2,) if rng.random() < 0.5 else (2,) + tuple(x + 1 for x in t) if t else (2, 2)
         return dict(op='append', items=[nd_spec(small_values(rng, bad, own))])
@@ -458,9 +470,10 @@ def mk_op(letter, rng, nt, bo, tail):
     raise ValueError(letter)
 
 
-ALPHABET = ['a0', 'a1', 'a2l', 'asc', 'aod', 'abad', 'it2', 'it0', 'itl', 't-1', 't0', 't1',
-            'tbig', 'tni', 'set', 'ro', 'mr', 'mrw', 'ms', 'mc']
-COMPACT = ['a1', 'aod', 'abad', 'it2', 'it0', 't-1', 't0', 't1', 'tbig', 'tni', 'set', 'ro', 'mr']
+ALPHABET = ['a0', 'a1', 'a2l', 'asc', 'aod', 'asw', 'a0d', 'abad', 'it2', 'it0', 'itl', 'itbad', 'it0d',
+            't-1', 't0', 't1', 'tbig', 't-big', 'tni', 'set', 'ro', 'mr', 'mrw', 'ms', 'mc']
+COMPACT = ['a1', 'aod', 'asw', 'a0d', 'abad', 'it2', 'it0', 'itbad', 't-1', 't0', 't1', 'tbig', 't-big', 'tni',
+           'set', 'ro', 'mr']
 
 
 def history_case(rng, nt, bo, shape, letters, mode='r+', metadata=None, layout='C'):
